@@ -94,7 +94,7 @@ inline std::string gen_scenario(const unsigned char *data, size_t size, const st
   if (pf.faults) { unsigned nf = c.pick(3); for (unsigned i = 0; i < nf; i++) { static const char *calls[] = {"asendto", "arecvfrom", "aconnect", "asocket", "agetsockname", "asetsockopt"}; static const char *errs[] = {"ECONNREFUSED", "ECONNRESET", "ENETUNREACH", "EMFILE", "EWOULDBLOCK", "EINTR", "EACCES"}; o += std::string("fail ") + calls[c.pick(6)] + " " + std::to_string(1 + c.pick(6)) + " " + errs[c.pick(7)] + "\n"; } }
   if (pf.chop || c.chance(1, 8)) { if (c.chance(2, 3)) { o += "chop "; unsigned n = 1 + c.pick(4); for (unsigned i = 0; i < n; i++) o += (i ? "," : "") + std::to_string(1 + c.pick(c.chance(1, 2) ? 3 : 40)); o += "\n"; } if (c.chance(1, 2)) { o += "partial "; unsigned n = 1 + c.pick(4); for (unsigned i = 0; i < n; i++) o += (i ? "," : "") + std::to_string(c.pick(c.chance(1, 2) ? 4 : 50)); o += ",64\n"; } }
   if (pf.search && c.chance(1, 3)) o += "alias r" + std::to_string(1 + c.pick(3)) + " target" + std::to_string(c.pick(3)) + ".alias.test\n";
-  if (pf.addr && c.chance(1, 2)) { unsigned n = 1 + c.pick(3); for (unsigned i = 0; i < n; i++) o += "hosts 10.55.0." + std::to_string(i + 1) + " r" + std::to_string(1 + c.pick(pf.max_reqs)) + ".test\n"; }
+  if (pf.addr && c.chance(1, 2)) { unsigned n = 1 + c.pick(3); for (unsigned i = 0; i < n; i++) o += std::string("hosts ") + (c.chance(1, 3) ? "2001:db8::" + std::to_string(i + 1) : "192.0.2." + std::to_string(i + 1)) + " r" + std::to_string(1 + c.pick(3)) + ".test" + (c.chance(1, 4) ? " r" + std::to_string(1 + c.pick(3)) + ".alt.test" : "") + "\n"; }
   // ---- body
   unsigned nreq = 1 + c.pick((unsigned)pf.max_reqs); int id = 0; unsigned body = nreq + c.pick(10);
   std::vector<int> ids;
